@@ -15,9 +15,20 @@ void dump_none(const char *key)
 	ev_str("t", "none");
 	ev_close_obj();
 }
+/* values nested deeper than this are dumped as {"t":"deep"} below the cap (the trace reader's JSON parser has a nesting
+ * limit of 255 and a level of the value costs up to three levels of the dump); 0 = no cap */
+int dump_depth_cap = 0;
+static int dump_level = 0;
 void dump_value(const char *key, json_object *o)
 {
 	ev_open_obj(key);
+	if (dump_depth_cap && dump_level >= dump_depth_cap && (json_object_is_type(o, json_type_array) || json_object_is_type(o, json_type_object)))
+	{
+		ev_str("t", "deep");
+		ev_close_obj();
+		return;
+	}
+	dump_level++;
 	switch (json_object_get_type(o))
 	{
 	case json_type_null: ev_str("t", "null"); break;
@@ -92,5 +103,6 @@ void dump_value(const char *key, json_object *o)
 		break;
 	}
 	}
+	dump_level--;
 	ev_close_obj();
 }
